@@ -580,8 +580,49 @@ def c11(tier):
     return obs
 
 
+def dij_ob(prop, und, n, emax, fixs=None, **kw):
+    nm = max(n, 1)
+    defs = caps(n, n)
+    defs.update({"UND": und, "EMAX": emax, "VERIF_VEC_CAP": max(nm, emax + 2), "VERIF_HEAP_CAP": emax + 2})
+    if fixs is not None:
+        defs["FIXS"] = fixs
+    b = "verif_=%d,unordered_map=%d,findGeodesicsDijkstra&#0=%d,findGeodesicsDijkstra&#1=%d,default=%d" % (emax + 4, nm * nm + 2, emax + 4, nm + 2, max(nm + 3, emax + 4))
+    ob = {"id": "%s/%s/n%d-e%d/findGeodesicsDijkstra%s" % (prop, "uwg" if und else "dwg", n, emax, "" if fixs is None else "-s%d" % fixs), "src": "dijkstra.cpp", "defs": defs, "bounds": b, "no_validate": True}
+    ob.update(kw)
+    return ob
+
+
+def c12(tier):
+    obs = []
+    for und in (0, 1):
+        if tier == "quick":
+            obs.append(dij_ob("C12", und, 2, 4 if not und else 3))
+            for s in range(3):
+                obs.append(dij_ob("C12", und, 3, 3 if not und else 4, fixs=s, timeout=300, mem_gb=8))
+        else:
+            obs.append(dij_ob("C12", und, 2, 4))
+            for s in range(3):
+                obs.append(dij_ob("C12", und, 3, 5 if not und else 6, fixs=s, timeout=3400, mem_gb=16))
+            for s in range(4):
+                obs.append(dij_ob("C12", und, 4, 4, fixs=s, timeout=3400, mem_gb=16))
+    return obs
+
+
+PROPS["C12"] = {"gen": c12,
+    "bounds": {"quick": "DirectedWeightedGraph: all graphs on 2 vertices, on 3 vertices with at most 3 edges; UndirectedWeightedGraph: 2 vertices, 3 vertices with at most 4 list entries; weights from {0, .25, .5, 1, 1.5, 2}; every source; every heap arrangement the standard allows",
+               "thorough": "3 vertices up to 5 (directed) / 6 (undirected) list entries; 4 vertices up to 4 list entries"},
+    "outside": "larger graphs; weights outside the table (inexact sums: the rounding clause of the property is not claimed)",
+    "explanation": "Certificate oracle: distances form a feasible potential, every reached vertex has a tight predecessor edge, the predecessor chain leads to the source - which characterises minimum distances for non-negative weights; unreachable vertices carry +inf and the sentinel. Termination is the unwinding bound of the main loop.",
+    "assumptions": ["heap capacity E+2 (capacity overflow is an assumption)", "graph states satisfy the weighted representation invariant"]}
+
+
 def c19(tier):
     obs = []
+    for und in (0, 1):
+        obs.append(dij_ob("C19", und, 2, 3))
+        if tier == "thorough":
+            for s in range(3):
+                obs.append(dij_ob("C19", und, 3, 4, fixs=s, timeout=3400, mem_gb=16))
     for und in (0, 1):
         for alg in (0, 1):
             for n in ((2, 3) if tier == "quick" else (2, 3, 4)):
@@ -607,6 +648,51 @@ PROPS["C19"] = {"gen": c19,
     "outside": "graphs beyond these sizes - the asymptotic statement is claimed only up to them",
     "explanation": "The searches are instantiated on a harness-defined graph type that counts getOutNeighbours calls; the assertions are exactly the totals the property states.",
     "assumptions": ["queue capacity 40 on the layered family"]}
+
+
+def c17(tier):
+    """safety mode: the harnesses of the other properties re-run with the functional assertions ignored and the std-model
+       preconditions plus CBMC's bounds / pointer / signed-overflow / shift / division checks as the verdict"""
+    import re
+    picks = []
+    def take(gen, pat, limit=None):
+        got = [o for o in gen(tier) if re.search(pat, o["id"])]
+        picks.extend(got[:limit] if limit else got)
+    n = "n3" if tier == "quick" else "n[34]"
+    take(c01, r"/dir/int/%s/.*/(core|neigh|edges|matrix|indegs)$" % n)
+    take(c02, r"/und/int/%s/.*/(core|neigh|degree|matrix)$" % n)
+    take(c02, r"/und/int/n2/anystate/edges$")
+    take(c03, r"/(dir|und)/(string|struct)/n3/(addEdge|removeEdge|setEdgeLabel|readd-rm2)/core$")
+    take(c04, r"/(dmg|umg)/n3/[^/]*/(core|degree|degrees|matrix|indeg)$")
+    take(c04, r"wide")
+    take(c05, r"/(dwg|uwg)/n3/[^/]*/(core|wmatrix)$")
+    take(c16_simple, r"/(dir|und)/int/")
+    take(c16_mg, r".")
+    take(c16_wg, r"/(core|neigh)$")
+    take(c06, r"/(dir-int|und-int|dmg|uwg)/n3-3/(eq|copyctor-indep)$")
+    take(c08, r"/(traversal|step|begin|vertices)$")
+    take(c09, r"/n[023]")
+    take(c10, r"/n2")
+    take(c11, r"/n3/")
+    take(c12, r".")
+    out = []
+    for o in picks:
+        o = dict(o)
+        o["id"] = "C17/" + o["id"]
+        o.update(only_ub=True, safety=True, count_ub=True, optional_reach=[""], no_validate=True)
+        out.append(o)
+    # the pair hash of the label store is executed (overflow / shift checked) in one step harness
+    h = step("C17", "step_dir.cpp", "dir-hash", 3, 3, 1, 0, 0, defs={"VERIF_EXEC_HASH": None})
+    h.update(only_ub=True, safety=True, count_ub=True, optional_reach=[""], no_validate=True)
+    out.append(h)
+    return out
+
+
+PROPS["C17"] = {"gen": c17,
+    "bounds": {"quick": "the 3-vertex (2 where stated) obligations of C01-C12, C16 re-run in safety mode, one label type per class", "thorough": "also the 4-vertex obligations"},
+    "outside": "independence from compiler and optimisation level (only clang-14 -O0+SROA IR is analysed; other configurations only through the replay builds); undefined behaviour inside libstdc++ itself or needing the real allocator (leaks, double free)",
+    "explanation": "Within the bounds and inputs of the listed harnesses no precondition of a standard-library facility is violated (iterator validity, front/back/pop on empty, operator[] range, pop_heap on a non-heap for the comparator used, substr position), no array bound, pointer, signed-overflow, shift or division check of CBMC fails in the translated BaseGraph code. A result depending on an uninitialised value is a functional failure of the owning property (undef is nondeterministic in the encoding).",
+    "assumptions": ["as in the re-used harnesses"]}
 
 
 def obligations(prop, tier):
